@@ -46,4 +46,29 @@ theorem strictParse_toBoc (H : Bytes → Bytes) (t : Cell) (wf : TreeWF H t) (ty
   rw [← hsc]
   exact strictParse_order H ord (ordOK_of_valid H p ord vo nc okp sem) p vo.root_first bs hflat
 
+/-- the same for ANY valid order of the cells (the implementation's freedom), not only the one `Cell.order` computes -/
+theorem strictParse_anyOrder (H : Bytes → Bytes) (t : Cell) (wf : TreeWF H t) (ty : Typed t) (p : PCell)
+    (hb : Cell.build H t = some p) (nc : NoCollision p) (ord : List PCell) (vo : ValidOrder p ord)
+    (o : Opts) (hv : o.valid = true) (hn : ord.length < 2 ^ 32)
+    (hP : (payloadOf (sizeW (orderRecs ord)) (orderRecs ord)).length * 2 < 2 ^ 64) :
+    ∃ recs bs, flattenCells (indexMap ord) ord = some recs ∧ emit recs o = some bs ∧
+      strictParse H bs = some [toSCell t] := by
+  have okp := build_ok H t p (shape_of H t wf ty) hb
+  have okord : ∀ c ∈ ord, CellOK c := fun c hc => okp c (vo.sound c hc)
+  obtain ⟨hfl, hok, hfw⟩ := flatten_order p ord vo okord
+  have hlen : (orderRecs ord).length = ord.length := by simp [orderRecs]
+  have h1 : 1 ≤ (orderRecs ord).length := by
+    rw [hlen]
+    have := vo.root_first
+    cases ord with
+    | nil => simp at this
+    | cons a l => simp
+  obtain ⟨bs, he, _, hs⟩ := strictFlat_emit o (orderRecs ord) hv h1 (by rw [hlen]; exact hn) hP hok hfw
+  obtain ⟨sem, hsc⟩ := sem_of_tree H t p wf ty hb
+  refine ⟨_, bs, hfl, he, ?_⟩
+  rw [← hsc]
+  apply strictParse_order H ord (ordOK_of_valid H p ord vo nc okp sem) p vo.root_first bs
+  rw [hs]
+  simp [orderRecs, cellSRec, cell_toSRec, Function.comp_def]
+
 end TonVerif.Proofs.BocSem
